@@ -1,7 +1,7 @@
 CFG = dict(
     props_file='Props/C34.v',
     coq_targets=['Checks/C34.vo', 'Props/C34.vo'],
-    bin='groupa', bin_args=['c34'], n_quick=300, n_thorough=6000, thorough_args=[],
+    bin='groupa', bin_args=['c34'], n_quick=300, n_thorough=3000, thorough_args=[],
     level_text="C34_stratifiable_accepted: every rule set that has a stratification (textbook level assignment) passes the acceptance check (negative dependency inside a dependency cycle), for all programs; C34_relaxation_is_stratification: the evaluator's own stratification (hypothesis of C01) is a textbook stratification. Partial: the converse is validated per case. Oracle: every generated signed dependency graph goes through three acceptance paths (one engine program, the catalog validator, and the handler with a random persistent/session split); each must accept exactly the rule sets without a negative cycle.",
     level_note='Trusted: Coq kernel; hand-written Gallina model of clause semantics and of the engine strategy (Model/Datalog.v) — IRBuilder, the optimizer passes and Differential Dataflow are validated by the correspondence, not derived; harness printers.',
     corr_name='neg_cycle / accepts vs engine, validate_rules_stratification, Handler',
